@@ -192,6 +192,14 @@ class ModelReplayer:
                     x = sl[a[0]]
                     x *= a[1]
                     sl[a[0]] = x
+                elif name == "isub_scalar":
+                    x = sl[a[0]]
+                    x -= a[1]
+                    sl[a[0]] = x
+                elif name == "idiv":
+                    x = sl[a[0]]
+                    x /= a[1]
+                    sl[a[0]] = x
                 elif name == "ipow":
                     x = sl[a[0]]
                     x **= a[1]
